@@ -101,6 +101,9 @@ def topoFrom : Nat → List GNode → Bool
 
 def topo (nodes : List GNode) : Bool := topoFrom 0 nodes
 
+/-- no type stub occurs twice among the files of the graph (a file is in exactly one node) -/
+def stubsDistinct (nodes : List GNode) : Bool := decide ((nodes.flatMap fun n => stubsOf n.files).Nodup)
+
 /-- all sources of the graph, in node order -/
 def graphSources (nodes : List GNode) : List Mod := nodes.flatMap fun n => sourcesOf n.files
 
